@@ -174,8 +174,37 @@ def one(first, k, nexpected, pre, ndep):
     return status, batches, deposited, gate.total
 
 
+MODEL_STATEMENTS = ['assert self.fresh_results is not None',
+                    'out = self.fresh_results', 'self.fresh_results = []',
+                    'return out']
+
+
+def handout_skeleton():
+    """The statements of the live `WorkerMailbox.get_new_results` (docstring
+    dropped) and whether `deposit_result` appends to `self.fresh_results`:
+    the source-line model `Model/NextHandout.lean` (theorem
+    C07_fine_next_handout) has one step per statement of exactly this code."""
+    import ast
+    import inspect
+    import textwrap
+    from bqskit.runtime.worker import WorkerMailbox
+    fn = ast.parse(textwrap.dedent(
+        inspect.getsource(WorkerMailbox.get_new_results))).body[0]
+    body = [b for b in fn.body if not (
+        isinstance(b, ast.Expr) and isinstance(b.value, ast.Constant)
+        and isinstance(b.value.value, str))]
+    stmts = [ast.unparse(b) for b in body]
+    dep = inspect.getsource(WorkerMailbox.deposit_result)
+    return stmts, 'self.fresh_results.append(' in dep
+
+
 def run_preempt(ck: Check):
     stats = {'schedules': 0, 'blocked': 0, 'past_end': 0}
+    stmts, appends = handout_skeleton()
+    model_ok = stmts == MODEL_STATEMENTS and appends
+    ck.coverage['next_handout_model_tie'] = {
+        'statements': stmts, 'deposit_appends': appends,
+        'matches_Model_NextHandout': model_ok}
     for first in ('A', 'B'):
         # the task is only ever stepped for next() after a deposit woke it:
         # at least one result is fresh when the hand-out starts
@@ -220,3 +249,14 @@ def run_preempt(ck: Check):
                             f'event {k} while the other thread runs', desc)
                 k += 1
     ck.coverage['next_single_preemption'] = stats
+    if not model_ok and not any(
+            v['signature'].startswith('preempt:') for v in ck.violations):
+        ck.violation(
+            'fine-model:next-handout-statements-changed',
+            'the statements of WorkerMailbox.get_new_results / deposit_result '
+            f'are no longer the ones Model/NextHandout.lean has one step for '
+            f'(live: {stmts}, appends to fresh_results: {appends}); '
+            'C07_fine_next_handout does not describe this code; the '
+            'single-preemption exploration found no failing schedule',
+            {'live_statements': stmts, 'model_statements': MODEL_STATEMENTS},
+            found_input=False)
